@@ -760,11 +760,37 @@ def r5(ctx):
         ctx.fail(rule, "anchor-lost:integer_with_range_opt", "the integer arm no longer builds the type through integer_with_range_opt",
                  "%s:%d" % (p.file, p.line))
         return
+    def is_flag(e):
+        return e[0] == "field" and e[2] == "1" and any(x[0] == "call" and "IntegerRange" in x[1] for x in X.walk(e[1]))
+
+    # every type returned after the range was parsed carries the flag (an arm for the unbounded range that returns the plain
+    # unconstrained type drops it)
+    parses = [cs for cs in p.calls() if cs.name == "parse" and "IntegerRange" in (cs.callee or "")]
+    if not parses:
+        ctx.fail(rule, "anchor-lost:IntegerRange::parse", "the integer arm no longer calls IntegerRange::parse", "%s:%d" % (p.file, p.line))
+    for pc in parses:
+        if pc.target is None:
+            continue
+
+        def depends(e):
+            e = X.strip(e)
+            if e[0] == "phi":
+                return all(depends(a) for a in e[1])
+            return any(is_flag(x) for x in walk_outside_closures(e))
+        for bb, j, st in p.all_statements():
+            rv = st.get("rv") or {}
+            if st["k"] == "assign" and rv.get("k") == "agg" and rv.get("adt", "").endswith("result::Result") and rv.get("variant") == "Ok" \
+                    and p.dominates(pc.target, bb) and "Type" in (st.get("pty") or ""):
+                payload = O.operand(rv["ops"][0], bb, j)
+                d = {"returned": F.rd(payload)[:200], "at": span_loc(st["sp"])}
+                if depends(payload):
+                    ctx.ok(rule, "integer#returned-type", d)
+                else:
+                    ctx.fail(rule, "integer#extensible-dropped-on-a-path", "after the range was parsed the attribute parser returns `%s`, which does "
+                                                                           "not depend on the parsed `,...` flag: `integer(min..max,...)` is read back "
+                                                                           "as not extensible" % F.rd(payload)[:80], span_loc(st["sp"]), d)
     for cs in sites:
         a = O.call_args(cs)[0]
-
-        def is_flag(e):
-            return e[0] == "field" and e[2] == "1" and any(x[0] == "call" and "IntegerRange" in x[1] for x in X.walk(e[1]))
         everywhere = any(is_flag(e) for e in X.walk(a))
         uncond = any(is_flag(e) for e in walk_outside_closures(a))
         detail = {"argument": F.rd(a)[:300], "flag_used": everywhere, "flag_used_outside_closures": uncond}
